@@ -1,7 +1,10 @@
 package main
 
 import (
+	"fmt"
+	"os"
 	"go/types"
+	"sort"
 	"strings"
 
 	"golang.org/x/tools/go/ssa"
@@ -260,6 +263,9 @@ func (mi *ModInfo) storeTargetFams(addr ssa.Value, out map[string]Sort) {
 		}
 	case *ssa.IndexAddr:
 		elemStoreFams(et, out)
+	case *ssa.Alloc, *ssa.FreeVar, *ssa.Global:
+		// a local variable cell (own or captured) or a package variable: cannot alias an escaped field address
+		boxStoreFams(et, out)
 	default:
 		boxStoreFams(et, out)
 		// a store through a pointer of unknown origin may hit any address-escaping field / element of that type
@@ -316,6 +322,9 @@ func (w *World) ComputeMods() *ModInfo {
 				}
 				if !esc {
 					continue
+				}
+				if os.Getenv("GOVC_DEBUG_ESC") != "" {
+					fmt.Fprintf(os.Stderr, "ESC %s in %s: %s\n", v, FuncKey(f), v.Type())
 				}
 				if isField {
 					fa := v.(*ssa.FieldAddr)
@@ -413,6 +422,21 @@ func (w *World) ComputeMods() *ModInfo {
 		}
 	}
 	w.mods = mi
+	// immutable declarations are checked, not trusted: no module function may store to such a family
+	if w.Contracts != nil {
+		for f, ms := range mi.mods {
+			own := mi.ownMods(f)
+			_ = ms
+			for fam := range own.Fams {
+				for imm := range w.Contracts.Immutable {
+					if famIsUnder(fam, imm) {
+						w.ImmutableViolations = append(w.ImmutableViolations, FuncKey(f)+" writes "+fam)
+					}
+				}
+			}
+		}
+		sort.Strings(w.ImmutableViolations)
+	}
 	return mi
 }
 
